@@ -128,7 +128,7 @@ PROPS = {
     "C03": dict(
         module="Evl.Props.C03",
         theorems=["Evl.C03.progress", "Evl.C03.prompt", "Evl.C03.measure_decreases", "Evl.C03.terminates", "Evl.C03.clean",
-                  "Evl.C03.no_send_on_closed", "Evl.C03.closed_is_final", "Evl.C03.done_matches_add", "Evl.C03.add_is_safe", "Evl.C03.on_source"],
+                  "Evl.C03.no_send_on_closed", "Evl.C03.closed_is_final", "Evl.C03.done_matches_add", "Evl.C03.add_is_safe", "Evl.C03.send_holds_no_lock", "Evl.C03.on_source"],
         runs=[DISPATCH_RUN], oracle_prefixes=["C03"], models=["M2 Dispatch"],
         trusted_base=TB_COMMON,
         assumptions=DISPATCH_ASSUME + ["partial: wall-clock promptness is measured by the harness (Send must return within 0.5 s of a cancel while nodes are held) but not part of any theorem; `prompt` is an enabledness statement"],
@@ -180,14 +180,14 @@ PROPS = {
         module="Evl.Props.C07",
         theorems=["Evl.C07.deny_node_refuses", "Evl.C07.deny_node_sticky", "Evl.C07.deny_pipe_refuses", "Evl.C07.deny_pipe_sticky",
                   "Evl.C07.allow_node_overwrite", "Evl.C07.allow_pipe_overwrite", "Evl.C07.invalid_policy_rejected",
-                  "Evl.C07.node_rebinding", "Evl.C07.one_version"],
-        runs=[REGISTRY_RUN, race_run("window")], oracle_prefixes=["C07", "C01/C07"], models=["M1 Registry"],
+                  "Evl.C07.node_rebinding", "Evl.C07.one_version_on_source", "Evl.C07.one_version"],
+        runs=[REGISTRY_RUN, race_run("window", 30, 400, 120)], oracle_prefixes=["C07", "C01/C07"], models=["M1 Registry"],
         trusted_base=TB_COMMON, assumptions=M1_ASSUME, rule=M1_RULE,
     ),
     "C20": dict(
         module="Evl.Props.C20",
         theorems=["Evl.C20.reopen_all", "Evl.C20.reopen_reaches_every_node", "Evl.C20.reopen_error"],
-        runs=[REGISTRY_RUN], oracle_prefixes=["C20"], models=["M1 Registry"],
+        runs=[REGISTRY_RUN, race_run("reopen", 5, 60, 20)], oracle_prefixes=["C20"], models=["M1 Registry"],
         trusted_base=TB_COMMON,
         assumptions=M1_ASSUME + ["with a failing node Broker.Reopen returns at the first failing graph in Go's map order: which other nodes are reached is not compared"],
         rule=M1_RULE,
